@@ -506,10 +506,11 @@ func (s *Sched) Step(t *Task) {
 func (s *Sched) strayEvent(tt *Task) {
 	r := getReq(tt)
 	if tt.State == StExt && r != nil && r.extEnd {
+		// not logged here: two tasks woken by one chunk of responses come back in
+		// real-time order; the session logs their return in request-id order
 		tt.ExtReturned = true
 		tt.State = StParked
 		tt.Blocked = false
-		s.Log.Ev(tt.ID, "ext-return", "", "")
 		return
 	}
 	panic(fmt.Sprintf("simrt: event from %v (state %v, req %v) while another task runs", tt, tt.State, r))
